@@ -6,6 +6,13 @@
  * clear-callback and allocator events ({clr(mem), free(mem)} iff the call
  * empties the owner set, free(book) iff it empties owners+weaks, nothing
  * else); observed != predicted is a violation at the call where it happens.
+ *
+ * Ownership graphs: managed blocks may embed 1-4 shared pointers and a weak
+ * pointer to OTHER allocations (chains, fans, diamonds, back-pointing weak
+ * references; never an ownership cycle), reset by the block's clear callback.
+ * The prediction is transitive: a block whose last owner is an embedded
+ * pointer is cleared and released nested inside the outer clear callback, in
+ * slot order, before the outer memory goes; co-owned blocks are untouched.
  */
 #include "vrt.h"
 #include "explore.h"
@@ -16,7 +23,10 @@
 #define NS 3
 #define NW 3
 #define NU 2
-#define MAXA 64                 /* allocation records per case (ids recycled never) */
+#define MAXA 1024               /* allocation records per case (ids recycled never) */
+#define RANDA 64                /* random histories stop allocating here */
+#define MAXEV 4096              /* clear/free events of one call (a chain of several hundred blocks dies in one reset) */
+#define NCH 4                   /* embedded owners per graph block */
 #define MEMMAGIC 0x600dfeedu
 #define CLRMAGIC 0xdeadc1eau
 
@@ -28,7 +38,16 @@ struct arec {
     int unique_kind;            /* 1: owned by a unique pointer (no book) */
     int noclr;                  /* allocated without a clear callback: only the free is expected */
     int selfweak;               /* the managed memory embeds a weak pointer to itself, reset by its clear callback */
+    /* ownership graphs: the managed memory embeds nchild shared pointers and one weak pointer to OTHER allocations,
+     * all reset by its clear callback (children in slot order, then the weak pointer) */
+    int graph, nchild, child[NCH], wother;
+    int dying;                  /* model only: inside its own destruction (the pointer being reset is still a reference) */
+    unsigned stamp, vis; int drops;
 };
+struct gnode { uint32_t magic, nchild; cstl_weak_ptr_t w; cstl_shared_ptr_t child[]; };
+#define GN(mem) ((struct gnode *)(mem))
+#define GSIZE_OK(sz) ((sz) % 8 == 4 && (sz) >= sizeof(struct gnode) + NCH * sizeof(cstl_shared_ptr_t))
+#define GNCHILD(sz) (1 + (int)(((sz) >> 3) & 3))
 static struct arec A[MAXA];
 static int nA;
 
@@ -42,9 +61,9 @@ static uintptr_t upriv[NU];             /* priv cookie stored with each unique a
 
 /* merged event log of one call: clear callbacks and allocator frees, in order */
 struct mev { char kind; void *p; };     /* 'c' clear, 'f' free, 'm' malloc */
-static struct mev obs[32];
+static struct mev obs[MAXEV];
 static int nobs;
-static int clr_bad;
+static int clr_bad, ev_lost;
 
 static void on_clear_common(void *mem, void *priv, void *want_priv)
 {
@@ -53,21 +72,25 @@ static void on_clear_common(void *mem, void *priv, void *want_priv)
     if (mem == NULL) { clr_bad = 2; return; }
     if (w[0] != MEMMAGIC) clr_bad = 3;          /* second clear, or not a managed block */
     w[0] = CLRMAGIC;
-    if (nobs < 32) { obs[nobs].kind = 'c'; obs[nobs].p = mem; }
+    if (nobs < MAXEV) { obs[nobs].kind = 'c'; obs[nobs].p = mem; }
     nobs++;
 }
 static int ev_consumed;
 static void sync_alloc_events(void)
 {
     int n = vrt_ev_n();
+    if (n > VRT_EV_MAX) ev_lost = 1;
     for (; ev_consumed < n && ev_consumed < VRT_EV_MAX; ev_consumed++) {
         const struct vrt_aev *e = vrt_ev(ev_consumed);
-        if (nobs < 32) {
+        if (nobs < MAXEV) {
             if (e->kind == 'f') { if (e->p == NULL) continue; obs[nobs].kind = 'f'; obs[nobs].p = e->p; }
-            else { obs[nobs].kind = 'm'; obs[nobs].p = e->kind == 'r' ? e->q : e->p; }
+            else { obs[nobs].kind = 'm'; obs[nobs].p = e->failed ? NULL : e->kind == 'r' ? e->q : e->p; }
         }
         nobs++;
     }
+    /* the runtime keeps VRT_EV_MAX events per window; a graph dying in one call makes more: open a new window
+     * (every clear callback and every return of a nested reset comes through here, so none is lost) */
+    if (ev_consumed >= VRT_EV_MAX / 2) { vrt_ev_begin(); ev_consumed = 0; }
 }
 static void shared_clr(void *mem, void *priv) { sync_alloc_events(); on_clear_common(mem, priv, NULL); VRT_COUNT("event.clear.shared"); }
 #define EW(mem) ((cstl_weak_ptr_t *)((char *)(mem) + 8))
@@ -77,6 +100,29 @@ static void shared_clr_selfweak(void *mem, void *priv)
     sync_alloc_events(); on_clear_common(mem, priv, NULL);
     cstl_weak_ptr_reset(EW(mem));
     VRT_COUNT("event.clear.shared"); VRT_COUNT("event.clear.reentrant-weak-reset");
+}
+/* ownership graphs: the clear callback resets the pointers the dying block embeds, "what a clear callback is for";
+ * blocks that thereby lose their last owner are destroyed right there, nested inside this callback */
+static int gdepth;
+static void shared_clr_graph(void *mem, void *priv)
+{
+    struct gnode *g = mem;
+    uint32_t i, n;
+    sync_alloc_events(); on_clear_common(mem, priv, NULL);
+    VRT_COUNT("event.clear.shared"); VRT_COUNT("event.clear.graph");
+    if (mem == NULL) return;
+    n = g->nchild;
+    if (n > NCH) { clr_bad = 3; return; }
+    gdepth++;
+    VRT_MAX("max.graph.clear-nesting", gdepth);
+    for (i = 0; i < n; i++) {
+        cstl_shared_ptr_reset(&g->child[i]);
+        sync_alloc_events();            /* what the nested reset released belongs in front of our next event */
+        if (cstl_shared_ptr_get(&g->child[i]) != NULL) clr_bad = 4;
+    }
+    cstl_weak_ptr_reset(&g->w);
+    sync_alloc_events();
+    gdepth--;
 }
 static int *clear_hook_count;
 static void big_clr(void *mem, void *priv)
@@ -95,12 +141,16 @@ static void *last_unique_priv;
 static void unique_clr2(void *mem, void *priv) { last_unique_priv = priv; unique_clr(mem, priv); }
 static void unique_release_sentinel(void *mem, void *priv) { (void)mem; (void)priv; }      /* never called: marks "out-parameter not written" */
 
-static void call_begin(void) { vrt_ev_begin(); ev_consumed = 0; nobs = 0; clr_bad = 0; }
+static void call_begin(void) { vrt_ev_begin(); ev_consumed = 0; nobs = 0; clr_bad = 0; ev_lost = 0; gdepth = 0; }
 
 /* predicted event list */
-static struct mev want[32];
+static struct mev want[MAXEV];
 static int nwant;
-static void want_add(char k, void *p) { want[nwant].kind = k; want[nwant].p = p; nwant++; }
+static void want_add(char k, void *p)
+{
+    if (nwant >= MAXEV) vrt_fail("harness.memory.event-buffer", "more than %d predicted events in one call", MAXEV);
+    want[nwant].kind = k; want[nwant].p = p; nwant++;
+}
 
 static void call_end(const char *entry)
 {
@@ -113,11 +163,13 @@ static void call_end(const char *entry)
         snprintf(key, sizeof(key), "memory.clear.twice-or-foreign.%s", entry);
         vrt_fail(key, "%s: clear callback ran for memory that was already cleared or is not a managed block", entry);
     }
+    VRT_CHECK(clr_bad != 4, "memory.graph.embedded-owner-not-empty-after-reset", "%s: a shared pointer embedded in a dying block still owns something after its reset returned", entry);
+    VRT_CHECK(!ev_lost && nobs <= MAXEV, "harness.memory.event-buffer", "%s: allocator/callback events lost (%d observed)", entry, nobs);
     /* mallocs are checked by the caller (alloc ops); compare the destruction events */
     {
-        struct mev got[32];
+        static struct mev got[MAXEV];
         int ng = 0, nm = 0;
-        for (i = 0; i < nobs && i < 32; i++) {
+        for (i = 0; i < nobs && i < MAXEV; i++) {
             if (obs[i].kind == 'm') { nm++; continue; }
             got[ng++] = obs[i];
         }
@@ -138,13 +190,42 @@ static void call_end(const char *entry)
 }
 
 /* model: drop one owner / one weak reference of allocation a, predicting events */
+static unsigned callid, visid;
+static int mdepth;              /* > 0: predicting what happens inside a clear callback */
+static void model_drop_weak(int a);
 static void model_drop_owner(int a)
 {
     if (a < 0) return;
+    if (A[a].stamp != callid) { A[a].stamp = callid; A[a].drops = 0; }
+    if (mdepth > 0) A[a].drops++;
     A[a].owners--;
     if (A[a].owners == 0) {
         if (!A[a].noclr) want_add('c', A[a].mem);
+        if (mdepth > 0) {
+            VRT_COUNT("graph.nested-destruction");
+            VRT_MAX("max.graph.model-nesting", mdepth);
+            if (A[a].drops >= 2) VRT_COUNT("graph.diamond.destroyed-by-its-second-dying-parent");
+        }
+        /* the pointer being reset keeps its reference to the bookkeeping block until the memory is gone */
+        A[a].dying = 1;
+        if (A[a].graph) {
+            /* the clear callback resets the embedded pointers: slot order, then the weak pointer; a block whose last
+             * owner that was is destroyed there and then */
+            int i, c, died = 0, kept = 0;
+            mdepth++;
+            for (i = 0; i < A[a].nchild; i++) {
+                c = A[a].child[i]; A[a].child[i] = -1;
+                if (c >= 0) { if (A[c].owners == 1) died++; else { kept++; VRT_COUNT("graph.drop.child-with-another-owner-survives"); } }
+                model_drop_owner(c);
+            }
+            c = A[a].wother; A[a].wother = -1;
+            model_drop_weak(c);
+            mdepth--;
+            if (died && kept) VRT_COUNT("graph.fan.some-children-die-some-survive");
+            if (died >= 2) VRT_COUNT("graph.fan.several-children-die");
+        }
         if (A[a].selfweak) A[a].weaks--;        /* dropped inside the clear callback, before the memory goes */
+        A[a].dying = 0;
         want_add('f', A[a].mem);
         A[a].cleared = 1; A[a].mem_freed = 1;
         VRT_COUNT("model.last-owner-released");
@@ -155,8 +236,23 @@ static void model_drop_weak(int a)
 {
     if (a < 0) return;
     A[a].weaks--;
-    if (A[a].owners + A[a].weaks == 0) { want_add('f', A[a].book); A[a].book_freed = 1; VRT_COUNT("model.bookkeeping-released"); }
+    if (A[a].dying) VRT_COUNT("graph.weak-to-dying-block-reset-inside-its-clear");
+    if (A[a].owners + A[a].weaks + A[a].dying == 0) { want_add('f', A[a].book); A[a].book_freed = 1; VRT_COUNT("model.bookkeeping-released"); }
 }
+/* is allocation `to` reachable from `from` through embedded owners? (an ownership cycle is a leak by design,
+ * the generator stays out of it) */
+static int reaches_rec(int from, int to)
+{
+    int i;
+    if (from == to) return 1;
+    if (A[from].vis == visid) return 0;
+    A[from].vis = visid;
+    if (A[from].graph && !A[from].mem_freed)
+        for (i = 0; i < A[from].nchild; i++)
+            if (A[from].child[i] >= 0 && reaches_rec(A[from].child[i], to)) return 1;
+    return 0;
+}
+static int reaches(int from, int to) { visid++; return reaches_rec(from, to); }
 
 /* ---- audits ---- */
 static void audit(void)
@@ -187,7 +283,25 @@ static void audit(void)
     /* live library blocks = mem + book of live allocations */
     {
         size_t expect = 0;
-        for (i = 0; i < nA; i++) expect += (!A[i].mem_freed) + (!A[i].unique_kind && !A[i].book_freed);
+        int j;
+        for (i = 0; i < nA; i++) {
+            expect += (!A[i].mem_freed) + (!A[i].unique_kind && !A[i].book_freed);
+            if (A[i].mem_freed || A[i].unique_kind) continue;
+            /* a block may be owned by embedded pointers only: it is untouched as long as any owner exists */
+            VRT_CHECK(*(uint32_t *)A[i].mem == MEMMAGIC, "memory.graph.owned-block-was-cleared",
+                      "allocation %d still has %d owner(s) but its clear callback already ran", i, A[i].owners);
+            if (!A[i].graph) continue;
+            VRT_CHECK(GN(A[i].mem)->nchild == (uint32_t)A[i].nchild, "memory.graph.owned-block-was-cleared", "allocation %d: contents changed", i);
+            for (j = 0; j < A[i].nchild; j++) {
+                cstl_shared_ptr_t *e = &GN(A[i].mem)->child[j];
+                const int c = A[i].child[j];
+                void *g = cstl_shared_ptr_get(e);
+                VRT_CHECK(g == (c < 0 ? NULL : A[c].mem), "memory.graph.get.embedded-owner-differs",
+                          "embedded owner %d of allocation %d: get() = %p, the model says %p", j, i, g, c < 0 ? NULL : A[c].mem);
+                if (c >= 0) VRT_CHECK(cstl_shared_ptr_unique(e) == (A[c].owners + A[c].weaks == 1), "memory.unique.wrong",
+                                      "embedded owner: unique() wrong with %d owners and %d weak references", A[c].owners, A[c].weaks);
+            }
+        }
         VRT_CHECK(vrt_lib_live() == expect, "memory.live-blocks", "library holds %zu live blocks, the model %zu", vrt_lib_live(), expect);
     }
     VRT_COUNT("audit");
@@ -196,7 +310,13 @@ static void audit(void)
 /* ---- ops ---- */
 enum {
     K_SALLOC = 1, K_SHARE, K_SSWAP, K_SRESET, K_WFROM, K_WLOCK, K_WSWAP, K_WRESET,
-    K_UALLOC, K_URELEASE, K_USWAP, K_URESET, K_NK
+    K_UALLOC, K_URELEASE, K_USWAP, K_URESET,
+    /* ownership graphs; a = shared pointer that owns the graph block, b = the other shared pointer, c = slot */
+    K_GEMBED,           /* share S[b] into embedded owner c of S[a]'s block */
+    K_GSWAP,            /* swap S[b] with embedded owner c of S[a]'s block (moves the only owner into the block) */
+    K_GWEAK,            /* embedded weak pointer of S[a]'s block <- from S[b] */
+    K_GLOCK,            /* lock the embedded weak pointer of S[a]'s block into S[b] */
+    K_NK
 };
 #define OP(k, a, b, c) ((uint32_t)(k) | (uint32_t)(a) << 8 | (uint32_t)(b) << 12 | (uint32_t)(c) << 16)
 #define OP_K(o) ((o) & 0xff)
@@ -224,7 +344,7 @@ static int st_apply(uint32_t op, int do_audit)
     const size_t size = OP_C(op);
     int x, i;
 
-    nwant = 0;
+    nwant = 0; callid++; mdepth = 0;
     switch (k) {
     case K_SALLOC: {
         if (a >= ns) return 0;
@@ -232,16 +352,15 @@ static int st_apply(uint32_t op, int do_audit)
         VRT_OP2("shared_ptr.alloc", "S%ld size=%ld", a, size);
         model_drop_owner(Sa[a]); Sa[a] = -1;
         call_begin();
-        cstl_shared_ptr_alloc(&S[a], size, (size & 1) ? NULL : (size % 4 == 2) ? shared_clr_selfweak : shared_clr);     /* odd sizes: no clear callback */
+        cstl_shared_ptr_alloc(&S[a], size, (size & 1) ? NULL : (size % 4 == 2) ? shared_clr_selfweak :
+                              GSIZE_OK(size) ? shared_clr_graph : shared_clr);     /* odd sizes: no clear callback */
         call_end("shared_ptr.alloc");
         if (size > 0) {
             void *mem = cstl_shared_ptr_get(&S[a]), *book = NULL;
             int nm = 0;
             VRT_CHECK(mem != NULL, "memory.alloc.failed-without-fault", "shared alloc(%zu) left the pointer empty", size);
-            for (i = 0; i < vrt_ev_n() && i < VRT_EV_MAX; i++) {
-                const struct vrt_aev *e = vrt_ev(i);
-                if (e->kind == 'm' && !e->failed) { nm++; if (e->p != mem) book = e->p; }
-            }
+            for (i = 0; i < nobs && i < MAXEV; i++)
+                if (obs[i].kind == 'm' && obs[i].p != NULL) { nm++; if (obs[i].p != mem) book = obs[i].p; }
             VRT_CHECK(nm == 2 && book != NULL, "memory.alloc.block-count", "shared alloc made %d allocations, expected managed block + bookkeeping block", nm);
             x = new_alloc_record();
             A[x].mem = mem; A[x].book = book; A[x].size = size; A[x].owners = 1; A[x].noclr = size & 1;
@@ -249,6 +368,16 @@ static int st_apply(uint32_t op, int do_audit)
             Sa[a] = x;
             VRT_COUNT("op.shared.alloc");
             if (size & 1) VRT_COUNT("op.shared.alloc.without-clear-callback");
+            if (GSIZE_OK(size)) {
+                /* the block embeds owners of (and a weak reference to) other allocations, all empty for now */
+                struct gnode *g = mem;
+                A[x].graph = 1; A[x].nchild = GNCHILD(size); A[x].wother = -1;
+                g->nchild = (uint32_t)A[x].nchild;
+                memset(&g->w, 0x77, sizeof(g->w) + A[x].nchild * sizeof(g->child[0]));
+                cstl_weak_ptr_init(&g->w);
+                for (i = 0; i < A[x].nchild; i++) { cstl_shared_ptr_init(&g->child[i]); A[x].child[i] = -1; }
+                VRT_COUNT("op.graph.alloc");
+            }
             if (size % 4 == 2) {
                 /* the object takes a weak reference to itself (observer / weak-self pattern) */
                 cstl_weak_ptr_init(EW(mem));
@@ -434,6 +563,83 @@ static int st_apply(uint32_t op, int do_audit)
         }
         VRT_COUNT("op.unique.reset");
         break;
+    case K_GEMBED: {
+        const int slot = (int)size;
+        int n, t;
+        if (a >= ns || b >= ns || a == b) return 0;
+        n = Sa[a];
+        if (n < 0 || !A[n].graph || slot >= A[n].nchild) return 0;
+        t = Sa[b];
+        if (t >= 0 && reaches(t, n)) return 0;          /* would close an ownership cycle */
+        vrt_state(ownclass(A[n].child[slot]));
+        VRT_OP3("shared_ptr.share", "S%ld -> embedded owner %ld of the block S%ld owns", b, slot, a);
+        if (A[n].child[slot] >= 0 && A[A[n].child[slot]].owners == 1) VRT_COUNT("op.graph.embed.over-last-owner");
+        model_drop_owner(A[n].child[slot]);
+        A[n].child[slot] = t;
+        if (t >= 0) A[t].owners++;
+        call_begin();
+        cstl_shared_ptr_share(&S[b], &GN(A[n].mem)->child[slot]);
+        call_end("shared_ptr.share");
+        VRT_COUNT("op.graph.embed");
+        break;
+    }
+    case K_GSWAP: {
+        const int slot = (int)size;
+        int n, t;
+        if (a >= ns || b >= ns || a == b) return 0;
+        n = Sa[a];
+        if (n < 0 || !A[n].graph || slot >= A[n].nchild) return 0;
+        t = Sa[b];
+        if (t >= 0 && reaches(t, n)) return 0;
+        VRT_OP3("shared_ptr.swap", "S%ld <-> embedded owner %ld of the block S%ld owns", b, slot, a);
+        if (t >= 0 && A[t].owners == 1) VRT_COUNT("op.graph.move-in.only-owner-now-embedded");
+        call_begin();
+        cstl_shared_ptr_swap(&S[b], &GN(A[n].mem)->child[slot]);
+        call_end("shared_ptr.swap");
+        Sa[b] = A[n].child[slot]; A[n].child[slot] = t;
+        VRT_COUNT("op.graph.swap");
+        break;
+    }
+    case K_GWEAK: {
+        int n;
+        if (a >= ns || b >= ns) return 0;
+        n = Sa[a];
+        if (n < 0 || !A[n].graph) return 0;
+        vrt_state(ownclass(A[n].wother));
+        VRT_OP2("weak_ptr.from", "embedded weak pointer of the block S%ld owns <- S%ld", a, b);
+        model_drop_weak(A[n].wother);
+        A[n].wother = Sa[b];
+        if (Sa[b] >= 0) A[Sa[b]].weaks++;
+        if (Sa[b] >= 0 && Sa[b] != n && reaches(n, Sa[b])) VRT_COUNT("op.graph.weak.to-descendant");
+        if (Sa[b] >= 0 && Sa[b] != n && reaches(Sa[b], n)) VRT_COUNT("op.graph.weak.to-ancestor");
+        call_begin();
+        cstl_weak_ptr_from(&GN(A[n].mem)->w, &S[b]);
+        call_end("weak_ptr.from");
+        VRT_COUNT("op.graph.weak");
+        break;
+    }
+    case K_GLOCK: {
+        int n, tgt;
+        if (a >= ns || b >= ns || a == b) return 0;
+        n = Sa[a];
+        if (n < 0 || !A[n].graph) return 0;
+        tgt = A[n].wother;
+        vrt_state(ownclass(tgt));
+        VRT_OP2("weak_ptr.lock", "embedded weak pointer of the block S%ld owns -> S%ld", a, b);
+        model_drop_owner(Sa[b]); Sa[b] = -1;
+        if (tgt >= 0 && A[tgt].owners > 0) { Sa[b] = tgt; A[tgt].owners++; VRT_COUNT("op.lock.yields-owner"); }
+        else if (tgt >= 0) VRT_COUNT("op.lock.dead-yields-empty");
+        else VRT_COUNT("op.lock.empty-weak");
+        call_begin();
+        cstl_weak_ptr_lock(&GN(A[n].mem)->w, &S[b]);
+        call_end("weak_ptr.lock");
+        if (Sa[b] < 0)
+            VRT_CHECK(cstl_shared_ptr_get(&S[b]) == NULL, "memory.lock.owner-from-dead", "lock produced an owner although no owner exists");
+        else
+            VRT_CHECK(cstl_shared_ptr_get(&S[b]) == A[tgt].mem, "memory.lock.empty-from-live", "lock did not produce an owner although one exists");
+        VRT_COUNT("op.graph.lock");
+        break;
+    }
     default:
         return 0;
     }
@@ -442,11 +648,12 @@ static int st_apply(uint32_t op, int do_audit)
 }
 
 #define SCOPE(s, w, u) ((s) | (w) << 4 | (u) << 8)
+#define SCOPE_G 0x1000          /* the alphabet builds ownership graphs (only tells scopes apart in the signature) */
 static void st_create(int scope)
 {
     int i;
     ns = scope & 15; nw = (scope >> 4) & 15; nu = (scope >> 8) & 15;
-    nA = 0;
+    nA = 0; callid = 1; visid = 0;
     memset(S, 0x77, sizeof(S)); memset(W, 0x77, sizeof(W)); memset(U, 0x77, sizeof(U));    /* recycled storage */
     /* both documented ways of making the objects: the init functions and the static initialiser macros */
     for (i = 0; i < ns; i++) {
@@ -478,20 +685,33 @@ static void st_destroy(void)
 static uint64_t st_sig(void)
 {
     /* canonical relabelling of allocations by first appearance */
-    int map[MAXA], next = 0, i;
+    static int map[MAXA], order[MAXA];
+    int next = 0, i, j, any = 0;
     uint64_t h = 0x5eed + SCOPE(ns, nw, nu);
-    for (i = 0; i < nA; i++) map[i] = -1;
+#define LABEL(a) do { if ((a) >= 0 && map[a] < 0) { order[next] = (a); map[a] = next++; } } while (0)
+    for (i = 0; i < nA; i++) { map[i] = -1; any |= A[i].graph; }
     for (i = 0; i < ns; i++) {
         int a = Sa[i];
-        if (a >= 0 && map[a] < 0) map[a] = next++;
+        LABEL(a);
         h = vrt_mix(h, a < 0 ? 0 : (1 + map[a]) * 4 + A[a].noclr + 2 * A[a].selfweak);
     }
     for (i = 0; i < nw; i++) {
         int a = Wa[i];
-        if (a >= 0 && map[a] < 0) map[a] = next++;
+        LABEL(a);
         h = vrt_mix(h, a < 0 ? 0 : (1 + map[a]) * 4 + (A[a].owners > 0) + 2 * A[a].selfweak);
     }
     for (i = 0; i < nu; i++) h = vrt_mix(h, Ua[i] >= 0 ? 1 + A[Ua[i]].noclr : 0);
+    /* ownership graphs: the edges out of every labelled live graph block, in label order (blocks owned by embedded
+     * pointers only get their label here); states without graph blocks keep the signature they always had */
+    if (any) for (j = 0; j < next; j++) {
+        const int a = order[j];
+        h = vrt_mix(h, 0x6000 + A[a].noclr + 2 * A[a].selfweak + 4 * A[a].graph + 8 * (A[a].owners > 0));
+        if (!A[a].graph || A[a].mem_freed) continue;
+        h = vrt_mix(h, A[a].nchild);
+        for (i = 0; i < A[a].nchild; i++) { const int c = A[a].child[i]; LABEL(c); h = vrt_mix(h, c < 0 ? 0 : 1 + map[c]); }
+        { const int c = A[a].wother; LABEL(c); h = vrt_mix(h, c < 0 ? 0 : (1 + map[c]) * 2 + (A[c].owners > 0)); }
+    }
+#undef LABEL
     return h;
 }
 static int st_nontrivial(void)
@@ -503,9 +723,20 @@ static int st_nontrivial(void)
 }
 static struct vex model = { st_create, st_destroy, st_apply, st_sig, st_nontrivial, 0, NULL };
 
-static int build_alphabet(int s, int w, int u, uint32_t *al)
+#define GCLOSURE_SIZE 108       /* graph block with 2 embedded owners */
+static int build_alphabet(int s, int w, int u, int gr, uint32_t *al)
 {
     int n = 0, i, j;
+    for (i = 0; gr && i < s; i++) {
+        al[n++] = OP(K_SALLOC, i, 0, GCLOSURE_SIZE);
+        for (j = 0; j < s; j++) {
+            al[n++] = OP(K_GWEAK, i, j, 0);
+            if (i == j) continue;
+            al[n++] = OP(K_GEMBED, i, j, 0); al[n++] = OP(K_GEMBED, i, j, 1);
+            al[n++] = OP(K_GSWAP, i, j, 0); al[n++] = OP(K_GSWAP, i, j, 1);
+            al[n++] = OP(K_GLOCK, i, j, 0);
+        }
+    }
     for (i = 0; i < s; i++) {
         al[n++] = OP(K_SALLOC, i, 0, 24);
         al[n++] = OP(K_SALLOC, i, 0, 25);       /* odd size: no clear callback */
@@ -534,12 +765,14 @@ static int build_alphabet(int s, int w, int u, uint32_t *al)
     return n;
 }
 
-struct cscope { int s, w, u, depth; };
+struct cscope { int s, w, u, depth, graph; };
 static const struct cscope quick_scopes[] = {
     { 2, 1, 0, 7 }, { 2, 2, 0, 6 }, { 3, 1, 0, 6 }, { 3, 2, 0, 5 }, { 0, 0, 2, 8 }, { 2, 1, 1, 5 }, { 3, 3, 0, 5 },
+    { 2, 0, 0, 7, 1 }, { 2, 1, 0, 6, 1 }, { 3, 0, 0, 5, 1 }, { 3, 1, 0, 4, 1 },
 };
 static const struct cscope thorough_scopes[] = {
     { 2, 1, 0, 10 }, { 2, 2, 0, 9 }, { 3, 1, 0, 9 }, { 3, 2, 0, 8 }, { 0, 0, 2, 12 }, { 2, 1, 1, 8 }, { 3, 3, 0, 7 }, { 3, 3, 2, 6 },
+    { 2, 0, 0, 9, 1 }, { 2, 1, 0, 7, 1 }, { 3, 0, 0, 6, 1 }, { 3, 1, 0, 5, 1 },
 };
 static const struct cscope *scopes;
 static int nscopes;
@@ -548,14 +781,15 @@ static void run_closure(int ci)
 {
     const struct cscope *s = &scopes[ci];
     static uint32_t al[256];
-    int n = build_alphabet(s->s, s->w, s->u, al);
+    int n = build_alphabet(s->s, s->w, s->u, s->graph, al);
     struct vex_result r;
-    vrt_case_note("closure/bounded-exhaustive: %d shared, %d weak, %d unique pointer objects, alphabet %d, depth <= %d",
-                  s->s, s->w, s->u, n, s->depth);
+    vrt_case_note("closure/bounded-exhaustive: %d shared, %d weak, %d unique pointer objects%s, alphabet %d, depth <= %d",
+                  s->s, s->w, s->u, s->graph ? " + ownership graphs (blocks embedding 2 owners and a weak pointer)" : "", n, s->depth);
     /* every new allocation is a fresh record, so the signature abstracts allocation identity;
      * depth-capped: this is the bounded-exhaustive sequence generator over the owner-set closure */
     use_macro = ci & 1;
-    vex_closure(&model, SCOPE(s->s, s->w, s->u), al, n, 3000000, s->depth, &r);
+    vex_closure(&model, SCOPE(s->s, s->w, s->u) | (s->graph ? SCOPE_G : 0), al, n, 3000000, s->depth, &r);
+    if (s->graph) VRT_COUNT_N("closure.graph.states", r.states);
     VRT_COUNT_N("closure.states", r.states);
     VRT_COUNT_N("closure.transitions", r.transitions);
     VRT_MAX("max.closure.depth", r.maxdepth);
@@ -569,15 +803,17 @@ static void run_random(uint64_t idx)
     uint32_t al[256];
     int n;
     vrt_rng_seed(&g, vrt_seed, 0xC05000 + idx);
-    vrt_case_note("random history: 3 shared, 3 weak, 2 unique, %d ops", nops);
+    vrt_case_note("random history: 3 shared, 3 weak, 2 unique, blocks embedding 1-4 owners, %d ops", nops);
     use_macro = idx & 1;
     st_create(SCOPE(NS, NW, NU));
-    n = build_alphabet(NS, NW, NU, al);
+    n = build_alphabet(NS, NW, NU, 1, al);
     for (i = 0; i < nops; i++) {
         uint32_t op = al[vrt_below(&g, n)];
-        if (OP_K(op) == K_SALLOC && OP_C(op)) op = OP(K_SALLOC, OP_A(op), 0, 24 + vrt_below(&g, 200));      /* odd: no callback */
+        if (OP_K(op) == K_SALLOC && OP_C(op) == GCLOSURE_SIZE) op = OP(K_SALLOC, OP_A(op), 0, 92 + 8 * vrt_below(&g, 16));     /* 1-4 embedded owners */
+        else if (OP_K(op) == K_SALLOC && OP_C(op)) op = OP(K_SALLOC, OP_A(op), 0, 24 + vrt_below(&g, 200));      /* odd: no callback */
+        else if (OP_K(op) == K_GEMBED || OP_K(op) == K_GSWAP) op = OP(OP_K(op), OP_A(op), OP_B(op), vrt_below(&g, NCH));
         st_apply(op, 1);
-        if (nA >= MAXA - 2) break;
+        if (nA >= RANDA - 2) break;
         vrt_sig(0, st_sig());
     }
     st_destroy();
@@ -632,26 +868,112 @@ static void run_big(uint64_t which)
     VRT_COUNT("big.cases");
     vrt_sig(0, 0xb16 + which);
 }
+/* ---- scripted ownership shapes, run through the same ops and the same exact-event oracle ---- */
+static void must(uint32_t op)
+{
+    if (!st_apply(op, 1)) vrt_fail("harness.memory.shape-op-not-applicable", "scripted op %#x was not applicable", (unsigned)op);
+}
+/* chain: block k owns block k-1 ... owns block 0; S0 owns the head.  `which` 1: every block also holds a weak pointer
+ * to the block that owns it, S2 co-owns a block in the middle, W0 watches a block that dies, W1 one that survives */
+static void shape_chain(int which)
+{
+    static const int sizes[4] = { 100, 108, 116, 92 };          /* 1, 2, 3, 4 embedded owners */
+    const int n = vrt_thorough ? (which ? 800 : 1000) : (which ? 300 : 400)      /* < MAXA, 3 events per block < MAXEV */;
+    int k;
+    vrt_case_note("chain of %d blocks each owning the next%s; the whole chain dies inside one reset", n,
+                  which ? ", back-pointing weak references, a co-owner in the middle" : "");
+    st_create(SCOPE(3, 2, 0) | SCOPE_G);
+    for (k = 0; k < n; k++) {
+        const int sz = sizes[k & 3];
+        must(OP(K_SALLOC, 1, 0, sz));
+        if (k > 0) {
+            if (which) must(OP(K_GWEAK, 0, 1, 0));              /* old head -> weak reference to its owner-to-be */
+            must(OP(K_GSWAP, 1, 0, k % GNCHILD(sz)));           /* new block takes over the only owner of the old head */
+        }
+        must(OP(K_SSWAP, 0, 1, 0));
+        if (which && k == n / 2) must(OP(K_SHARE, 0, 2, 0));
+        if (which && k == n / 4) must(OP(K_WFROM, 1, 0, 0));
+        if (which && k == 3 * n / 4) must(OP(K_WFROM, 0, 0, 0));
+    }
+    vrt_sig(0, st_sig());
+    must(OP(K_SRESET, 0, 0, 0));                                /* n (or n/2) nested destructions, innermost released first */
+    if (which) {
+        must(OP(K_WLOCK, 0, 1, 0));                             /* dead: empty */
+        must(OP(K_WLOCK, 1, 1, 0));                             /* alive below the co-owner */
+        must(OP(K_SRESET, 2, 0, 0));
+    }
+    st_destroy();
+    VRT_COUNT("shape.chain"); VRT_MAX("max.shape.chain-length", n);
+}
+/* fan: a root with four embedded owners; two leaves are owned by the root alone (one of them holds a weak pointer to
+ * the root), two have a co-owner outside */
+static void shape_fan(void)
+{
+    vrt_case_note("fan: root owning 4 leaves, 2 of them exclusively");
+    st_create(SCOPE(3, 2, 0) | SCOPE_G);
+    must(OP(K_SALLOC, 0, 0, 92));
+    must(OP(K_SALLOC, 1, 0, 24)); must(OP(K_GSWAP, 0, 1, 0));
+    must(OP(K_SALLOC, 1, 0, 100)); must(OP(K_GWEAK, 1, 0, 0)); must(OP(K_WFROM, 0, 1, 0)); must(OP(K_GSWAP, 0, 1, 2));
+    must(OP(K_SALLOC, 1, 0, 25)); must(OP(K_GEMBED, 0, 1, 1));
+    must(OP(K_SALLOC, 2, 0, 26)); must(OP(K_GEMBED, 0, 2, 3));
+    must(OP(K_WFROM, 1, 0, 0));
+    vrt_sig(0, st_sig());
+    must(OP(K_SRESET, 0, 0, 0));
+    must(OP(K_WLOCK, 0, 0, 0)); must(OP(K_WLOCK, 1, 0, 0));
+    st_destroy();
+    VRT_COUNT("shape.fan");
+}
+/* diamond: root -> {left, right} -> bottom; `which` 1: S2 keeps co-owning the bottom */
+static void shape_diamond(int which)
+{
+    vrt_case_note("diamond: root owns left and right, both own bottom%s", which ? ", bottom co-owned outside" : "");
+    st_create(SCOPE(3, 1, 0) | SCOPE_G);
+    must(OP(K_SALLOC, 2, 0, 100));                              /* bottom */
+    must(OP(K_SALLOC, 0, 0, 108));                              /* root */
+    must(OP(K_SALLOC, 1, 0, 116)); must(OP(K_GEMBED, 1, 2, 2)); must(OP(K_GSWAP, 0, 1, 0));        /* left */
+    must(OP(K_SALLOC, 1, 0, 92)); must(OP(K_GEMBED, 1, 2, 0)); must(OP(K_GWEAK, 1, 0, 0)); must(OP(K_GSWAP, 0, 1, 1));   /* right */
+    must(OP(K_WFROM, 0, 2, 0));
+    if (!which) must(OP(K_SRESET, 2, 0, 0));
+    vrt_sig(0, st_sig());
+    must(OP(K_SRESET, 0, 0, 0));
+    must(OP(K_WLOCK, 0, 1, 0));
+    st_destroy();
+    VRT_COUNT("shape.diamond");
+}
+#define NSHAPES 5
+static void run_shape(uint64_t i)
+{
+    use_macro = (int)(i & 1);
+    if (i < 2) shape_chain((int)i);
+    else if (i == 2) shape_fan();
+    else shape_diamond((int)(i - 3));
+}
 #define NBIGCASES 2
 static uint64_t nrandom(void) { return vrt_thorough ? 800000 : 150000; }
 static uint64_t ncases(void)
 {
     if (vrt_thorough) { scopes = thorough_scopes; nscopes = sizeof(thorough_scopes) / sizeof(scopes[0]); }
     else { scopes = quick_scopes; nscopes = sizeof(quick_scopes) / sizeof(scopes[0]); }
-    return nscopes + NBIGCASES + nrandom();
+    return nscopes + NBIGCASES + NSHAPES + nrandom();
 }
 static void run_case(uint64_t idx)
 {
     if (idx < (uint64_t)nscopes) run_closure((int)idx);
     else if (idx < (uint64_t)nscopes + NBIGCASES) run_big(idx - nscopes);
-    else run_random(idx - nscopes - NBIGCASES);
+    else if (idx < (uint64_t)nscopes + NBIGCASES + NSHAPES) run_shape(idx - nscopes - NBIGCASES);
+    else run_random(idx - nscopes - NBIGCASES - NSHAPES);
 }
 static void winit(void) { (void)ncases(); vrt_sig_name(0, "ownership-states"); }
 static const char *const required[] = {
     "op.share", "op.lock.yields-owner", "op.lock.dead-yields-empty", "op.weak.reset.last-reference-after-owners",
     "op.swap.owners-of-different-allocations", "op.lock.into-last-owner-of-same", "op.share.into-owner-of-other",
     "model.last-owner-released", "model.bookkeeping-released", "event.clear.shared", "event.clear.unique",
-    "op.unique.release.owning", "op.unique.release.one-out-parameter", "closure.states", "random.histories", "big.cases", "event.clear.reentrant-weak-reset", NULL
+    "op.unique.release.owning", "op.unique.release.one-out-parameter", "closure.states", "random.histories", "big.cases", "event.clear.reentrant-weak-reset",
+    /* ownership graphs */
+    "event.clear.graph", "graph.nested-destruction", "graph.drop.child-with-another-owner-survives", "graph.fan.some-children-die-some-survive",
+    "graph.fan.several-children-die", "graph.diamond.destroyed-by-its-second-dying-parent", "graph.weak-to-dying-block-reset-inside-its-clear",
+    "op.graph.move-in.only-owner-now-embedded", "op.graph.embed.over-last-owner", "op.graph.lock", "closure.graph.states",
+    "shape.chain", "shape.fan", "shape.diamond", NULL
 };
 static const struct vrt_harness H = { "memory", ncases, run_case, winit, NULL, required, 16 };
 int main(int argc, char **argv) { return vrt_main(argc, argv, &H); }
